@@ -82,6 +82,9 @@ def regression():
         Item("E", [Variant("Ab", "unit", [], [aci(True, explicit=False)]), Variant("Cd", "unit", [], [aci(False)])], metas=[EM("aci")]),
         Item("E", []),
         Item("E", [Variant("Only", "named", [Field("String", "s")], [DEFAULT])]),
+        # default next to default_with (variant / field level): the catch-all captures the input, the function is not consulted
+        Item("E", [Variant("Red", "unit"), Variant("Other", "tuple", [Field("String")], [DEFAULT, dw("dw_string")]), Variant("Blue", "tuple", [Field("u8")], [dw("dw_u8")])]),
+        Item("E", [Variant("Other", "named", [Field("String", "raw", ["dw_string"])], [DEFAULT]), Variant("Red", "unit")]),
         # a DISABLED default variant is neither produced nor used as the catch-all
         Item("E", [Variant("Red", "unit"), Variant("Other", "tuple", [Field("String")], [DISABLED, DEFAULT]), Variant("Blue", "unit")]),
         Item("E", [Variant("Other", "named", [Field("String", "rest")], [DEFAULT, ser("o"), DISABLED]), Variant("Red", "unit")],
